@@ -40,5 +40,6 @@ package persisters
 //@   ensures [root-spellings-map-to-stored-root] (name == "" || name == "." || name == "/" || name == "./") ==> result == p.root
 //@   ensures [absolute-layout-keeps-absolute-names] old(p.root) == "/" && hasPrefix(name, "/") && name != "/" ==> result == name
 //@   ensures [relative-layout-strips-the-slash] old(p.root) == "" && old(p.rootIsEmptyString) && name != "" && name != "." && name != "/" && name != "./" ==> result == pjoinF("", trimPrefix(name, "/"))
+//@   ensures [named-root-layout-keeps-relative-names] old(p.root) != "" && old(p.root) != "." && !hasPrefix(old(p.root), "/") && !hasPrefix(old(p.root), "./") && name != "" && name != "." && name != "/" && name != "./" && name != old(p.root) ==> result == name
 //@   property C16
 //@   ensures [relative-layout-strips-the-slash-on-open] old(p.root) == "" && old(p.rootIsEmptyString) && name != "" && name != "." && name != "/" && name != "./" ==> result == pjoinF("", trimPrefix(name, "/"))
